@@ -99,9 +99,35 @@ func classifyErr(err error) (string, string) {
 }
 
 type liveBuf struct {
-	name string
-	live []byte // full backing array view
-	snap []byte
+	name  string
+	live  []byte // full backing array view
+	snap  []byte
+	err   error // a returned error value: its message must not change later
+	msg   string
+	str   string // a returned string (shares memory with what the call returned); msg is a deep copy
+	isStr bool
+}
+
+func watchStr(watch *[]liveBuf, name string, s string) {
+	if watch != nil && s != "" {
+		*watch = append(*watch, liveBuf{name: name + " returned string", str: s, msg: strings.Clone(s), isStr: true})
+	}
+}
+
+func (w liveBuf) changed() bool {
+	if w.err != nil {
+		return w.err.Error() != w.msg
+	}
+	if w.isStr {
+		return w.str != w.msg
+	}
+	return !bytes.Equal(w.live, w.snap)
+}
+
+func watchErr(watch *[]liveBuf, name string, err error) {
+	if watch != nil && err != nil {
+		*watch = append(*watch, liveBuf{name: name + " returned error", err: err, msg: err.Error()})
+	}
 }
 
 type teeReader struct {
@@ -168,7 +194,8 @@ func execOnce(o *op, watch *[]liveBuf, name string) obs {
 				}()
 			}
 			s, err := bip39.NewMnemonicByEntropy(ent, lang)
-			r.Str = text(s)
+			r.Str = text(strings.Clone(s))
+			watchStr(watch, name, s)
 			r.Err, r.ErrMsg = classifyErr2(err)
 		case "new":
 			var prev io.Reader
@@ -179,11 +206,13 @@ func execOnce(o *op, watch *[]liveBuf, name string) obs {
 			if len(o.Source) > 0 {
 				bip39.VerifSwapRandSource(prev)
 			}
-			r.Str = text(s)
+			r.Str = text(strings.Clone(s))
+			watchStr(watch, name, s)
 			r.Err, r.ErrMsg = classifyErr2(err)
 		case "check":
 			err := bip39.CheckMnemonic(string(o.Text), lang)
 			r.Err, r.ErrMsg = classifyErr2(err)
+			watchErr(watch, name, err)
 		case "valid":
 			r.Bool = bip39.IsMnemonicValid(string(o.Text), lang)
 		case "seed":
@@ -198,7 +227,9 @@ func execOnce(o *op, watch *[]liveBuf, name string) obs {
 				*watch = append(*watch, liveBuf{name: name + " returned seed", live: b[:cap(b)], snap: append([]byte(nil), b[:cap(b)]...)})
 			}
 		case "string":
-			r.Str = text(lang.String())
+			s := lang.String()
+			r.Str = text(strings.Clone(s))
+			watchStr(watch, name, s)
 		default:
 			panic("verif child: unknown op kind " + o.Kind)
 		}
@@ -276,7 +307,7 @@ func childMain(planPath string) int {
 		}
 	}
 	for _, w := range watch {
-		if !bytes.Equal(w.live, w.snap) {
+		if w.changed() {
 			rep.LaterMutated = append(rep.LaterMutated, w.name)
 		}
 	}
